@@ -25,6 +25,8 @@ import YashModel.Args.Getopts
 import YashModel.Args.GetoptsHistory
 import YashModel.Args.Bespoke
 import YashModel.Args.BespokeSpec
+import YashModel.Args.OptionNames
+import YashModel.Generated.OptionNames
 open YashModel YashModel.Args YashModel.Proto
 
 def parseBit (c : Char) : Option Bool :=
@@ -184,6 +186,7 @@ def parseNames (t : String) : Option Names :=
         | _ => none
       pure { nm with info := nm.info ++ [(← decChars o, { modifiable := m, portShort := ps', portLong := pl })] }
     | ["g", n, v] => do pure { nm with sig := nm.sig ++ [(← decChars n, ← v.toInt?)] }
+    | ["a", _, _] => some nm
     | _ => none
 
 def showOpts (os : List (Str × Bool)) : String :=
@@ -250,6 +253,30 @@ def showKill : Except KillErr KillCmd → String
     | .multipleListOperands => "err:multipleListOperands"
     | .nonPortableListOperand => "err:nonPortableListOperand"
     | .missingTarget => "err:missingTarget"
+
+/-- `a:<char>:<0|1>` entries of <names>: `char::is_alphanumeric` of the non-ASCII characters of the case -/
+def parseAlnum (t : String) : List (Char × Bool) :=
+  if t = "_" then [] else
+  (t.splitOn ",").filterMap fun e =>
+    match e.splitOn ":" with
+    | ["a", c, b] => do
+      let c ← decChars c
+      let c ← c.head?
+      let b ← b.toList.head? >>= parseBit
+      pure (c, b)
+    | _ => none
+
+def allSuffixes (args : List (List Char)) : List (List Char) :=
+  ([] :: args.flatMap fun a => (List.range a.length).map fun i => a.drop i).eraseDups
+
+/-- The long-name answers are NOT taken from the harness: they are computed by the model of
+    `canonicalize` / `parse_long` (Args/OptionNames.lean) over the generated table of option names. -/
+def withModelLong (nm : Bespoke.Names) (extra : List (Char × Bool)) (args : List (List Char)) : Bespoke.Names :=
+  { nm with long := (allSuffixes args).map fun s =>
+      (s, match OptionNames.resolve Generated.OptionNames.optionNames extra s with
+          | .ok o st => Bespoke.LongRes.ok o st
+          | .noSuch => .noSuch
+          | .ambiguous => .ambiguous) }
 
 def hasSub (s pat : String) : Bool := (s.splitOn pat).length > 1
 
@@ -348,11 +375,14 @@ def runLine (line : String) : String :=
      | _, _, _ => "bad-case\t-")
   | "T" :: p :: nm :: args =>
     (match p.toList.head? >>= parseBit, parseNames nm, args.mapM decChars with
-     | some p, some nm, some args => specCompare p (showSet (Bespoke.setParse nm p args)) (showSet (Bespoke.setParse nm p (Bespoke.separateSO true args)))
+     | some p, some nm0, some args =>
+       let nm := withModelLong nm0 (parseAlnum nm) args
+       specCompare p (showSet (Bespoke.setParse nm p args)) (showSet (Bespoke.setParse nm p (Bespoke.separateSO true args)))
      | _, _, _ => "bad-case\t-")
   | "H" :: nm :: args =>
     (match parseNames nm, args.mapM decChars with
-     | some nm, some args =>
+     | some nm0, some args =>
+       let nm := withModelLong nm0 (parseAlnum nm) args
        -- `--name=ARG` as the first argument is also rewritten to `--name ARG` (options that take an argument)
        let eqSplit : List (List Char) → List (List Char) := fun r =>
          match r with
